@@ -51,7 +51,9 @@ def run(ctx):
     def not_bad(fn):
         return lambda l: l[0] == 'truth' and l[2] is False and 'is_bad' in fmt_sym(b, l[1]) and fn in fmt_sym(b, l[1])
     def is_none(param):
-        return lambda l: l[0] == 'variant' and ((l[2] == 'None' and l[3]) or (l[2] == 'Some' and not l[3])) and param in fmt_sym(b, l[1])
+        # "nothing to compare with" is the parameter itself being None - not a value derived from it (a filtered / mapped option
+        # would let a blank expectation switch the check off)
+        return lambda l: l[0] == 'variant' and ((l[2] == 'None' and l[3]) or (l[2] == 'Some' and not l[3])) and re.match(r'^%s\(_\d+\)$' % param, fmt_sym(b, l[1]))
     for gi, (bb, si) in enumerate(goods):
         key = 'Good#%d' % gi
         lits = F.literals_at(bb, si)
@@ -87,6 +89,15 @@ def run(ctx):
             r.fail(rule, key, 'certificate accepted although: ' + '; '.join(probs), loc=b.loc)
         else:
             r.ok(rule, key, 'Good only after all trust-store and certificate checks' + (' (skip_verify_certs path)' if skip else ''), loc=b.loc)
+    for fn, param in (('is_hostname_valid', 'hostname'), ('is_application_uri_valid', 'application_uri')):
+        cs = [c for c in b.calls() if c.callee.endswith('X509::' + fn)]
+        if len(cs) != 1:
+            r.lost(rule, fn + ':arg', 'expected one call of %s' % fn); continue
+        t = fmt_sym(b, F.sym_operand(cs[0].args[1]))
+        if re.match(r'^(&\(\*)?%s\(_\d+\)@Some\.0\)?$' % param, t):
+            r.ok(rule, fn + ':arg', '%s is given the expected %s supplied by the caller' % (fn, param), loc=cs[0].loc)
+        else:
+            r.fail(rule, fn + ':arg', '%s compares the certificate with %s, not with the caller\'s %s' % (fn, t[:80], param), loc=cs[0].loc)
     if len([1 for gi, (bb, si) in enumerate(goods) if any(field_truth('skip_verify_certs', True)(l) for l, e in F.literals_at(bb, si))]) != 1:
         r.fail(rule, 'Good:skip-path', 'expected exactly one Good return under skip_verify_certs == true', loc=b.loc)
     # store_rejected_cert
